@@ -32,7 +32,8 @@ ASSUMPTIONS = [
     "CRLF, file readline at LF: an input-dependent difference that exists for every schedule, so not a C11 matter)",
 ]
 GATES = ["invariant_evaluated", "reads_short_justified", "reader_runs_compared", "single_cut_enumerated",
-         "single_fault_enumerated", "spanning_reads", "after_fault_reads", "chunked_invariant_evaluated"]
+         "single_fault_enumerated", "spanning_reads", "after_fault_reads", "chunked_invariant_evaluated",
+         "aligned_timeouts_compared"]
 
 
 class Monitor:
@@ -249,10 +250,11 @@ def reader_frames(stream, bufsize=4096, rounds=1, mode=0):
     return out, first
 
 
-def reader_case(ctx, data, sched, bufsize, crlf_only, label):
+def reader_case(ctx, data, sched, bufsize, crlf_only, label, aligned=False):
     import pyrtcm.rtcmreader as RR
 
-    params = {"kind": "reader", "data": data.hex(), "sched": sched, "bufsize": bufsize, "crlf": crlf_only}
+    params = {"kind": "reader", "data": data.hex(), "sched": sched, "bufsize": bufsize, "crlf": crlf_only,
+              "aligned": aligned}
     nfaults = sum(1 for s in sched if s in ("T", "E"))
     mon = Monitor()
     _HOLDER[0] = mon
@@ -297,6 +299,15 @@ def reader_case(ctx, data, sched, bufsize, crlf_only, label):
                               f"over a file holding the same bytes", params)
                 return
             ctx.hit("file_compared")
+    elif aligned:
+        # every timeout falls BETWEEN two items: nothing is in flight, so a consumer that keeps iterating the same
+        # reader must end up with exactly the fault-free messages ("a timeout loses no buffered data")
+        if got != base:
+            ctx.violation("timeout-loses-messages", f"{label}: {nfaults} receive timeouts placed between items, the "
+                          f"consumer re-iterates the same reader: {len(got)} messages vs {len(base)} without timeouts "
+                          f"(bufsize {bufsize})", params)
+            return
+        ctx.hit("aligned_timeouts_compared")
     else:
         # in-order duplicate-free subsequence; first iteration is a prefix
         j = 0
@@ -418,6 +429,20 @@ def run(ctx):
         bufsize = rng.choice(BUFSIZES)
         sched = rand_sched(rng, len(data), bufsize, rng.choice((0, 0, 0, 1, 2, 5)))
         reader_case(ctx, data, sched, bufsize, crlf, "random")
+    # (B2) timeouts exactly between items, consumer resumes iteration on the same reader
+    for it in range(ctx.n(600, 12000)):
+        items = c02.make_items(rng, n=rng.randint(3, 10))
+        data = b"".join(b for _, b, _ in items)
+        bounds, off = [], 0
+        for _, b, _ in items[:-1]:
+            off += len(b)
+            bounds.append(off)
+        cuts = sorted(rng.sample(bounds, rng.randint(1, min(4, len(bounds)))))
+        sched, prev = [], 0
+        for c in cuts:
+            sched += [c - prev, "T"]
+            prev = c
+        reader_case(ctx, data, sched, rng.choice(BUFSIZES), True, "aligned-timeouts", aligned=True)
     # (C) real socket pair
     for it in range(ctx.n(32, 1600)):
         data = make_data(rng)
@@ -430,7 +455,8 @@ def replay(ctx, p):
     if p["kind"] == "raw":
         raw_case(ctx, bytes.fromhex(p["data"]), p["sched"], p["bufsize"], p["reads"], "replay")
     elif p["kind"] == "reader":
-        reader_case(ctx, bytes.fromhex(p["data"]), p["sched"], p["bufsize"], p["crlf"], "replay")
+        reader_case(ctx, bytes.fromhex(p["data"]), p["sched"], p["bufsize"], p["crlf"], "replay",
+                    aligned=p.get("aligned", False))
     elif p["kind"] == "chunked":
         chunked_case(ctx, [bytes.fromhex(b) for b in p["bodies"]], p["how"], p["sched"], p["bufsize"], p["reads"])
     else:
